@@ -12,8 +12,9 @@ Semantics (documented choices; the trusted part of this tie):
 * integers are unbounded `Int`; the conversions `int16(x)`, `uint64(x)`… wrap explicitly;
   division and remainder truncate towards zero and panic on a zero divisor;
 * slices are immutable lists (no aliasing); a struct / pointer-to-struct is a record value, an
-  assignment `x.f = e` rewrites the variable `x`; a method call on a variable writes the callee's
-  final receiver back (pointer-receiver semantics without aliasing);
+  assignment `x.f = e` rewrites the variable `x`; a method call on a variable `x.m()` or on a field of a
+  variable `x.f.m()` writes the callee's final receiver back (pointer-receiver semantics without
+  aliasing); on any other receiver expression the callee's changes to its receiver are lost;
 * out-of-range indexing / slicing and field access through `nil` are `panic`;
 * `fuel` bounds the NESTING DEPTH (statement nesting, expression nesting, call depth) and the
   number of iterations of a three-clause `for`; a block or a `range` loop hands the same fuel to
@@ -36,6 +37,27 @@ inductive Val where
   | struct (fs : List (String × Val))
   | tup (xs : List Val)
   deriving Repr, Inhabited
+
+mutual
+/-- structural equality of values (used to tell whether a callee changed its receiver) -/
+def Val.beq : Val → Val → Bool
+  | .int a, .int b => a == b
+  | .bool a, .bool b => a == b
+  | .str a, .str b => a == b
+  | .nil, .nil => true
+  | .list xs, .list ys => Val.beqList xs ys
+  | .struct fs, .struct gs => Val.beqFields fs gs
+  | .tup xs, .tup ys => Val.beqList xs ys
+  | _, _ => false
+def Val.beqList : List Val → List Val → Bool
+  | [], [] => true
+  | x :: xs, y :: ys => Val.beq x y && Val.beqList xs ys
+  | _, _ => false
+def Val.beqFields : List (String × Val) → List (String × Val) → Bool
+  | [], [] => true
+  | (k, x) :: xs, (l, y) :: ys => k == l && Val.beq x y && Val.beqFields xs ys
+  | _, _ => false
+end
 
 inductive Expr where
   | int (i : Int)
@@ -498,6 +520,12 @@ def evalE (prog : Prog) (ext : Ext)
           -- pointer receiver: write the callee's final receiver back when the receiver is a variable
           let st4 := match recv, st2.env rn with
             | .var x, some rv' => st3.set x rv'
+            | .sel (.var x) f, some rv' =>
+              -- `x.f.m(…)` with `x.f` a pointer field: a callee that changed its receiver has it stored back into the field
+              if Val.beq rv rv' then st3 else
+              (match st3.env x with
+               | some (.struct fs) => st3.set x (.struct (update f rv' fs))
+               | _ => st3)
             | _, _ => st3
           pure (flowResult fl, st4)
         | _, _ => .stuck ("arity " ++ m)
